@@ -44,7 +44,22 @@ Proof. intros compile good G0 Inj Gi. exact (unobservable compile good G0 Inj Gi
 (* the matcher consults the constraint of the route, not of a particular leaf: both forms of a route
    with an optional segment carry the same route id (model of the repaired code, finding F2) *)
 
+(* a constraint names its header under any spelling: the name is looked up in its canonical form (what
+   http.Header.Get does), so "x-k", "X-k" and "X-K" constrain the same header, and two of them in one
+   Headers() call must both hold *)
+Theorem C09_name_spelling : forall n r h hdrs,
+  constraint_ok ((n, r) :: h) hdrs = constraint_ok ((canon_key n, r) :: h) hdrs.
+Proof. exact constraint_spelling. Qed.
+
+Theorem C09_canonical_name_idempotent : forall s, canon_key (canon_key s) = canon_key s.
+Proof. exact canon_key_idem. Qed.
+
+Example C09_spelling_example :
+  canon_key [120; 45; 107]%N = [88; 45; 75]%N /\ canon_key [85; 83; 69; 82; 45; 97; 71; 69; 78; 84]%N = [85; 115; 101; 114; 45; 65; 103; 101; 110; 116]%N.
+Proof. vm_compute. split; reflexivity. Qed.
+
 Redirect "assum/C09.1" Print Assumptions C09_gate.
 Redirect "assum/C09.2" Print Assumptions C09_constrained_leaves_shortcut.
 Redirect "assum/C09.3" Print Assumptions C09_replace.
 Redirect "assum/C09.4" Print Assumptions C09_invisible.
+Redirect "assum/C09.9" Print Assumptions C09_name_spelling.
